@@ -41,11 +41,13 @@ def obsClos (twin : Val) (r : Recv) : String :=
     let u := s.UnmarshalP closuresK
     s!"V{errTokC (s.ValidE closuresK)} S{hx (s.String closuresK)} Qc{eqTok (Val.IsEqual eqHook false (.stk .native s.cfg s.xs) twin)} " ++
     s!"Qd{eqTok (Val.IsEqual eqHook false (.stk .native s.cfg s.xs) (.stk .native { kind := Gen.kind_basic } [.leaf (.int 99)]))} " ++
+    s!"Qs{eqTok (Val.IsEqual eqHook true (.stk .native s.cfg s.xs) (.stk .native s.cfg s.xs))} " ++
     s!"U{errTokC u.2}\{{showVal (.anys u.1)}} R{errClsC s.cfg.err} L{s.xs.length}"
   | .cnd c =>
     let u := c.UnmarshalP closuresK
     s!"V{errTokC (c.valid closuresK)} S{hx (c.string closuresK)} Qc{eqTok (Val.IsEqual eqHook false (.cnd .native c.cfg c.kw c.op c.ex) twin)} " ++
     s!"Qd{eqTok (Val.IsEqual eqHook false (.cnd .native c.cfg c.kw c.op c.ex) (.cnd .native { kind := Gen.kind_cond } ['z', 'z'] (.cmp 2) (.leaf (.int 5))))} " ++
+    s!"Qs{eqTok (Val.IsEqual eqHook true (.cnd .native c.cfg c.kw c.op c.ex) (.cnd .native c.cfg c.kw c.op c.ex))} " ++
     s!"U{errTokC u.2}\{{showVal (.anys u.1)}} R{errClsC c.cfg.err}"
 
 def stepClos (r : Recv) (ts : List String) : Recv × String :=
